@@ -35,6 +35,12 @@ func (h *H) faultActions(rt *rapid.T, fc *faultCounters) map[string]func(*rapid.
 			}
 			h.releaseAcks(rapid.IntRange(1, 5).Draw(rt, "n"))
 		},
+		"releaseKind": func(rt *rapid.T) {
+			h.App.Step()
+			if !h.releaseKind(rt) {
+				rt.Skip("nothing owed")
+			}
+		},
 		"armWrite": func(rt *rapid.T) {
 			if h.Current() == nil {
 				rt.Skip("no connection")
